@@ -529,5 +529,5 @@ func TestVerif_C26(t *testing.T) {
 	if s.Thorough() {
 		c26MaxSteps = 60
 	}
-	kit.Run(s, "import_atomic_differential", kit.N{Quick: 2000, Thorough: 30000}, c26Gen, c26Check)
+	kit.Run(s, "import_atomic_differential", kit.N{Quick: 1500, Thorough: 24000}, c26Gen, c26Check)
 }
